@@ -67,9 +67,12 @@ def run_case(case, stats: Stats | None):
     inst, state = case["inst"], case["state"]
     calls = grid_calls(inst, state) if case["calls"] == "grid" else case["calls"]
     x = cmdrun.CmdRig(ID, inst, state)
+    frames = []   # (index, inner call, (type, data)) of accepted calls
     try:
-        for c in calls:
+        for i, c in enumerate(calls):
             tags = x.call(c)
+            if "accepted" in tags and x.last_frame is not None:
+                frames.append((i, c[3] if c[0] == "with_inbound" else c, (x.last_frame.mtype, bytes(x.last_frame.data))))
             if stats is not None:
                 if "wild" in tags:
                     stats.classes["call:zone_temp_wild"] += 1
@@ -80,6 +83,26 @@ def run_case(case, stats: Stats | None):
                            sample={"gen": inst["gen"], "call": c, "outcome": tags[0]})
     finally:
         x.dispose()
+    # metamorphic: what a call transmits depends on the call and on the console's reports only, not on the calls made
+    # before it (the console never applied any of them): the last accepted timer call and the last accepted other call
+    # are repeated on a fresh client and must produce the same frame
+    if case["calls"] != "grid" and len(frames) >= 2:
+        timer = [f for f in frames[1:] if f[1][0].startswith(("timer_", "quick_"))][-1:]
+        other = [f for f in frames[1:] if not f[1][0].startswith(("timer_", "quick_"))][-1:]
+        for i, c, fr in timer + other:
+            y = cmdrun.CmdRig(ID, inst, state)
+            try:
+                y.call(c)
+                got = None if y.last_frame is None else (y.last_frame.mtype, bytes(y.last_frame.data))
+            finally:
+                y.dispose()
+            if got != fr:
+                raise Violation(f"C04:history-dependent-frame:{c[0]}",
+                                f"{c}: as call #{i} of the sequence it transmitted type={fr[0]:#x} data={fr[1].hex()}, as the only "
+                                f"call of a fresh client (same console reports) type={got and hex(got[0])} data={got and got[1].hex()}",
+                                {"inst": inst, "state": state, "calls": calls[:i + 1]})
+            if stats is not None:
+                stats.classes["replayed-on-fresh-client"] += 1
 
 
 def shards(tier: str):
@@ -96,7 +119,8 @@ def shards(tier: str):
 def floors(tier: str):
     return {f"call:{c}": 100 for c in ("ac_power", "ac_mode", "ac_fan", "ac_temp", "zone_power", "zone_temp", "zone_damper")} | \
         {"call:quick_duration": 30, "call:timer_time": 30, "call:timer_clear": 30, "call:updates": 20,
-                                                                                       "call-during-half-received-frame": 200}
+                                                                                       "call-during-half-received-frame": 200,
+                                                                                       "replayed-on-fresh-client": 300}
 
 
 def run_shard(spec, seed: int, tier: str):
